@@ -15,7 +15,7 @@ from vp.pbt import Outcome, Stats, call, drive, exc_sig
 PROPERTY = "C17"
 LEVEL = "fault_enumeration"
 SHARDS = {"quick": 16, "thorough": 16}
-RULE = ("scenarios from Hypothesis (entity = file or folder; previous data or none; new data; set (keywords only, or attribute / value plus keywords) / update / create-with-data; a second "
+RULE = ("scenarios from Hypothesis (entity = file or folder, sometimes named so that the sidecar's file name is at or just below 255 characters; default or another path configuration; previous data or none; new data; set (keywords only, or attribute / value plus keywords) / update / create-with-data; a second "
         "entity with its own data); for EVERY scenario ALL crash points are enumerated: a recording run through a file-system interposer lists "
         "every effect of the operation (creating / truncating open, each flushed write with its byte length, os.replace / rename, mkdir, touch); "
         "the operation is then re-run from the restored snapshot once per crash point - before each effect and inside every write at each byte "
